@@ -1,4 +1,5 @@
 import XV.Props.C02
+import XV.Lemmas.UndoKeys
 /-!
 C01 — the state at a block is a pure function of its chain: undoing exactly cancels playing.
 Transaction level: `undoTx (applyTx s t) t` restores every row of the UTXO table and the total
@@ -300,5 +301,73 @@ example :
     let t : Tx := ⟨1, false, [⟨0, 0, "u0", 5, 0, false⟩], [⟨"u1", 3, 0⟩, ⟨"u2", 0, 0⟩, ⟨"$", 2, 0⟩], [], []⟩
     let s : St := { U := [((0, 0), ⟨"u0", 5, 0⟩)] }
     admitTx s 0 t = .ok ∧ (undoTx {} (applyTx s t) t).U = s.U := by decide
+
+-- ================================================================== key tables (ZU / ZD)
+
+/-- the keys a transaction writes are pairwise distinct (the sandbox produces one write per key) -/
+def koutDistinct (t : Tx) : Prop := (t.kout.map (·.key)).Nodup
+/-- the keys a transaction reads are pairwise distinct -/
+def kinDistinct (t : Tx) : Prop := (t.kin.map (·.key)).Nodup
+
+instance (t : Tx) : Decidable (koutDistinct t) := by unfold koutDistinct; exact inferInstance
+instance (t : Tx) : Decidable (kinDistinct t) := by unfold kinDistinct; exact inferInstance
+
+/-- **applying a transaction keeps the key tables well-formed** (`KVInv`, defined in Lemmas/UndoKeys.lean: a live
+row never names a delete marker, a visible recycle row always does). Needs only that the environment knows `t`
+under its own id; `koutDistinct` is listed for uniformity and is not used. -/
+theorem applyTx_KVInv (e : Env) (s : St) (t : Tx) (hself : e.tx t.id = t) (_hnd : koutDistinct t)
+    (hinv : KVInv e s) : KVInv e (applyTx s t) :=
+  applyTx_KVInv' e s t hself hinv
+
+/-- **undoing an admitted transaction restores the version of every key, as the reader `curVer` sees it.**
+Observational: the raw recycle table ZD may have lost a stale marker that was hidden behind a live ZU row
+(`undo_apply_rows` says exactly what holds for the raw tables). `e.tx t.id = t`, `KVInv` and `kinDistinct` are not
+needed for this half (any read entry of a written key cites the same, current, version); they are kept in the
+statement so that it is the conjunction asked for and are used by `undo_apply_rows` / `undo_apply_KVInv`. -/
+theorem undo_apply_keys (e : Env) (s : St) (lh : Int) (t : Tx) (hadm : admitTx s lh t = .ok)
+    (_hself : e.tx t.id = t) (_hinv : KVInv e s) (hnd : koutDistinct t) (_hkin : kinDistinct t) :
+    ∀ key, curVer (undoTx e (applyTx s t) t) key = curVer s key := by
+  obtain ⟨_, _, hread, hwr⟩ := XV.C03.admit_sound s lh t hadm
+  exact undo_apply_curVer e s t hread hwr hnd
+
+/-- raw tables after apply-then-undo of an admitted transaction on a well-formed state: the live table ZU is back
+row by row; every row of the recycle table ZD that is there afterwards was there before (rows can only be lost, and
+only behind a live ZU row — otherwise `undo_apply_keys` would fail) -/
+theorem undo_apply_rows (e : Env) (s : St) (lh : Int) (t : Tx) (hadm : admitTx s lh t = .ok)
+    (hinv : KVInv e s) (hnd : koutDistinct t) :
+    ∀ key, lookup (undoTx e (applyTx s t) t).ZU key = lookup s.ZU key ∧
+      ∀ m, lookup (undoTx e (applyTx s t) t).ZD key = some m → lookup s.ZD key = some m := by
+  obtain ⟨_, _, hread, hwr⟩ := XV.C03.admit_sound s lh t hadm
+  exact undo_apply_tables e s t hinv hread hwr hnd
+
+/-- **well-formedness survives apply-then-undo** -/
+theorem undo_apply_KVInv (e : Env) (s : St) (lh : Int) (t : Tx) (hadm : admitTx s lh t = .ok)
+    (hinv : KVInv e s) (hnd : koutDistinct t) : KVInv e (undoTx e (applyTx s t) t) := by
+  obtain ⟨_, _, hread, hwr⟩ := XV.C03.admit_sound s lh t hadm
+  exact undo_apply_KVInv' e s t hinv hread hwr hnd
+
+-- non-vacuity: key "a" live at (1,0), key "b" deleted (marker (2,0)), key "c" never written; the transaction
+-- deletes "a", re-creates "b", creates "c" and only reads "d"; it is admitted, the state is well-formed, and after
+-- undo every key reads as before
+private def kvEnv : Env := { txs := [
+  (1, ⟨1, false, [], [], [⟨"a", none⟩], [⟨"a", "x", false⟩]⟩),
+  (2, ⟨2, false, [], [], [⟨"b", some (1, 1)⟩], [⟨"b", "", true⟩]⟩),
+  (3, ⟨3, false, [], [], [⟨"a", some (1, 0)⟩, ⟨"b", some (2, 0)⟩, ⟨"c", none⟩, ⟨"d", none⟩],
+       [⟨"a", "", true⟩, ⟨"b", "y", false⟩, ⟨"c", "z", false⟩]⟩)] }
+private def kvSt : St := { ZU := [("a", (1, 0))], ZD := [("b", (2, 0))] }
+
+example : admitTx kvSt 0 (kvEnv.tx 3) = .ok ∧ kvEnv.tx (kvEnv.tx 3).id = kvEnv.tx 3 ∧
+    koutDistinct (kvEnv.tx 3) ∧ kinDistinct (kvEnv.tx 3) := by decide
+example : KVInv kvEnv kvSt := by
+  apply KVInv_of_rows <;> decide
+example : ∀ key ∈ ["a", "b", "c", "d"],
+    curVer (applyTx kvSt (kvEnv.tx 3)) key ≠ curVer kvSt key ∨ key = "d" := by decide
+example : ∀ key ∈ ["a", "b", "c", "d"],
+    curVer (undoTx kvEnv (applyTx kvSt (kvEnv.tx 3)) (kvEnv.tx 3)) key = curVer kvSt key := by decide
+-- the raw recycle table is not restored in general: a stale marker hidden behind the live row of "a" is lost
+example :
+    let s : St := { ZU := [("a", (1, 0))], ZD := [("a", (9, 9))] }
+    lookup (undoTx kvEnv (applyTx s (kvEnv.tx 3)) (kvEnv.tx 3)).ZD "a" = none ∧ lookup s.ZD "a" = some (9, 9) ∧
+    curVer (undoTx kvEnv (applyTx s (kvEnv.tx 3)) (kvEnv.tx 3)) "a" = curVer s "a" := by decide
 
 end XV.C01
